@@ -109,7 +109,22 @@ writev(int fd, const struct iovec *iov, int cnt)
 	size_t tot = 0;
 	for (int i = 0; i < cnt; i++)
 		tot += iov[i].iov_len;
+	/* VERIF_SHORTWRITEV=k:how -- the k-th vectored write completes partly, at any byte (the tracer can only drop whole
+	 * segments of a writev without touching the caller's memory) */
+	static int vcnt, vk = -1, vhow;
+	if (vk < 0) {
+		const char *e = getenv("VERIF_SHORTWRITEV");
+		vk = 0;
+		if (e)
+			sscanf(e, "%d:%d", &vk, &vhow);
+	}
 	size_t left = maybe_short(fd, tot);
+	if (vk > 0 && fd > 2 && tot > 1 && __atomic_add_fetch(&vcnt, 1, __ATOMIC_SEQ_CST) == vk) {
+		left = vhow == 1 ? 1 : (vhow == 2 ? tot / 2 : (vhow == 3 ? tot - 1 : (size_t) vhow));
+		if (left >= tot)
+			left = tot - 1;
+		syscall(SYS_write, -1, "VERIF-SHORT", 11);
+	}
 	struct iovec v[16];
 	int m = 0;
 	for (int i = 0; i < cnt && left > 0 && m < 16; i++) {
